@@ -682,7 +682,25 @@ func genVals(t *rapid.T, n int, enc string, forceRuns bool) ([]Hex, string) {
 	if rapid.IntRange(0, 4).Draw(t, "vshift?") == 0 {
 		vshift = uint(8 * rapid.IntRange(1, 7).Draw(t, "vshift"))
 	}
+	// variable-length values: half of the cases take their lengths from a small
+	// per-case palette, so that equal sizes with different contents are common
+	var lenPalette []int
+	if s.name == "String16" && rapid.Bool().Draw(t, "lenpalette?") {
+		lenPalette = rapid.SliceOfN(rapid.SampledFrom([]int{0, 1, 1, 2, 2, 3, 3, 4, 5, 8, 40, 255, 256, 300}), 1, 4).Draw(t, "lenpalette")
+	}
 	payload := func(id uint64) Hex {
+		if lenPalette != nil {
+			h := sm64{id}
+			l := lenPalette[h.intn(len(lenPalette))]
+			b := make([]byte, l)
+			for i := range b {
+				b[i] = byte(id >> (8 * uint(i%8)))
+				if i >= 8 {
+					b[i] ^= byte(i)
+				}
+			}
+			return Hex(b)
+		}
 		if vshift > 0 {
 			id = base&((1<<vshift)-1) | (id-base)<<vshift
 		}
